@@ -25,13 +25,14 @@ structure St where
 def errName : Err → String
   | .IllegalChild => "IllegalChild" | .IllegalText => "IllegalText" | .AttributeError => "AttributeError"
   | .ValueError => "ValueError" | .NotFound => "NotFound" | .Hierarchy => "Hierarchy"
-  | .KeyError => "KeyError" | .Other => "Other"
+  | .KeyError => "KeyError" | .Other => "Other" | .RecursionError => "RecursionError"
 
 def errOfName : String → Option Err
   | "IllegalChild" => some .IllegalChild | "IllegalText" => some .IllegalText
   | "AttributeError" => some .AttributeError | "ValueError" => some .ValueError
   | "NotFound" => some .NotFound | "Hierarchy" => some .Hierarchy
   | "KeyError" => some .KeyError | "Other" => some .Other
+  | "RecursionError" => some .RecursionError
   | _ => none
 
 def showOpt : Option Nat → String
